@@ -532,6 +532,10 @@ CONTEXTS = [
     ("strict_fn", "function m() { 'use strict'; return %s; }"), ("two_directives", "function m() { 'other'; 'use strict'; return %s; }"),
     ("module", "import z from 'm'; export function m() { return %s; }"),
     ("nested_blocks", "function m() { { { v = %s; } } }"), ("paren", "function m() { v = ((%s)); }"),
+    ("fn_param_default_in_expr", "function m() { return o.x + h(function (x, pre = %s) { return pre + x; }); }"),
+    ("method_param_default_in_expr", "function m() { return f() + g({ k(x, pre = %s) { return pre; } }); }"),
+    ("class_field_in_expr", "function m() { return f() + new (class { fld = %s; })().fld; }"),
+    ("arrow_default_in_expr", "function m() { return f() + h((x = %s) => x); }"),
     ("curried_arrow", "function m() { return x => y => %s; }"), ("arrow_returning_fn", "function m() { return x => function () { return %s; }; }"),
     ("getter_directive", "const o2 = { get g() { 'use strict'; return %s; } };"),
     ("setter_directive", "const o2 = { set g(x) { 'other'; 'use strict'; v = %s; } };"),
